@@ -1398,9 +1398,15 @@ func TestVerifC04(t *testing.T) {
 							x.added = true
 						case "updN":
 							x.seenNode = true
+							everBound[x.g] = true
 						case "del":
 							x.added, x.bound, x.tainted, x.seenNode = false, false, false, false
 						}
+					}
+				}
+				for _, d := range sLog {
+					if d.kind == "postbind" && d.g < nG {
+						everBound[d.g] = true
 					}
 				}
 				trace := func() {
@@ -1529,7 +1535,17 @@ func TestVerifC04(t *testing.T) {
 						if se.pol == 1 {
 							cnt += len(se.bo)
 						}
-						if se.pol != 0 && se.pol != 1 && se.sat {
+						// once-satisfied exemption: possible whenever a member of the group was bound at some time (harness view:
+						// PostBind ran or the informer showed a node name), not only when the flag is still visible at the barrier —
+						// a PostBind racing the re-creation of a gang sets the flag on the new gang's private GangGroupInfo, Permit
+						// may read it there, and SetGangGroupInfo then swaps in the shared info without it
+						boundInRound := false
+						for _, e := range all {
+							if (e.kind == "postbind" || e.kind == "updN") && (c04Has(cfgs[d.g].declaredGroup(d.g), e.g) || e.g == x) {
+								boundInRound = true
+							}
+						}
+						if se.pol != 0 && se.pol != 1 && (se.sat || boundInRound || groupSatisfied(x) || groupSatisfied(d.g)) {
 							h.Tag("conc:racy-release exempt")
 							continue
 						}
